@@ -46,7 +46,7 @@ def run(ctx):
     ctx.cov["exhaustive"] = True
     per = 60 if ctx.tier == "quick" else 1500
     prog = [{"op": "scenario", "a": {"threads": th, "schedules": per, "seed": ctx.seed + i}} for i, th in enumerate(SCENARIOS)]
-    events = run_harness("amap", prog, os.path.join(WORK, "amap.ev.ndjson"), timeout=3000)
+    events = run_harness("amap", prog, os.path.join(WORK, "amap.ev.ndjson"), timeout=3000, ctx=ctx, one_event_per_line=False)
     nsched = sum(1 for e in events if e["op"] == "init")
     blocked = 0
     chunk, k = [], 0
